@@ -408,9 +408,12 @@ def check_track_append(ctx, rules=("OWN", "NONETEST", "PAIR")):
         nonetest.check(ctx, fi, tp, "the time stamp")
     if "PAIR" in rules:
         tt = [c for c in fv.calls() if isinstance(c.func, ast.Attribute) and c.func.attr == "append" and U(c.func.value) == "self.times"]
-        ok = len(st) == 1 and len(tt) == 1 and fv.post_dominates(tt[0], st[0])
-        ctx.decide(ok, "PAIR", site, (fi, tt[0]) if tt else fi, "one droplet and one time are appended together",
-                   "droplets and times are not appended pairwise on every path")
+        from ..astutil import count_on_normal_paths
+
+        ok = len(st) == 1 and len(tt) == 1 and fv.post_dominates(tt[0], st[0]) and count_on_normal_paths(fv, [st[0]]) == {1} and count_on_normal_paths(fv, [tt[0]]) == {1}
+        ctx.decide(ok, "PAIR", site, (fi, tt[0]) if tt else fi, "one droplet and one time are appended together on every path that does not raise",
+                   "droplets and times are not appended pairwise on every path: some call returns without storing the given droplet as a new member (e.g. it replaces the last "
+                   "member when the time repeats), so a droplet handed to the track is lost")
         if tt:
             from .collections import _check_default_time
 
